@@ -1,4 +1,5 @@
 import asyncio
+import codecs
 from glob import glob
 import queue
 import os
@@ -131,6 +132,8 @@ class from_textfile(Source):
     from_end: bool
         Whether to begin streaming from the end of the file (i.e., only emit
         lines appended after the stream starts).
+    encoding: str
+        Encoding of the file when ``f`` is a file name (default 'utf-8').
 
     Examples
     --------
@@ -143,9 +146,12 @@ class from_textfile(Source):
     Stream
     """
     def __init__(self, f, poll_interval=0.100, delimiter='\n',
-                 from_end=False, **kwargs):
+                 from_end=False, encoding='utf-8', **kwargs):
         if isinstance(f, str):
-            f = open(f)
+            # read bytes and decode incrementally: text mode would rewrite \r and \r\n, and fails on a multi-byte
+            # character whose bytes arrive in two different polls
+            f = open(f, 'rb')
+        self._decoder = codecs.getincrementaldecoder(encoding)()
         self.buffer = ''
         self.file = f
         self.from_end = from_end
@@ -159,6 +165,8 @@ class from_textfile(Source):
 
     async def _run(self):
         line = self.file.read()
+        if isinstance(line, bytes):
+            line = self._decoder.decode(line)
         if line:
             self.buffer = self.buffer + line
             if self.delimiter in self.buffer:
